@@ -509,8 +509,10 @@ def main() -> int:
     from ..recipe import gen as rgen
     from ..common import to_json
     cjobs = []
-    for v in (versions if t != "quick" else [5, 8]):
+    for v in (versions if t != "quick" else [5, 8, 10]):
         for (name, rec, opts) in rgen.wideratio_compound("A", v, t != "quick"):
+            if t == "quick" and v == 10 and ":vars:" not in name and ":order:" not in name:
+                continue
             cj = {"id": "%s@v%d" % (name, v), "family": "compound", "rec": to_json(rec), "version": v, "mode": "A", "loop_k": 2, "call_depth": 2, "lens": (0, 1)}
             cj.update(opts)
             cjobs.append(cj)
